@@ -150,8 +150,8 @@ func (c *Config) Get(format string) (info *Info, err error) {
 	info.RPM.Signature.KeyID = cloneString(c.RPM.Signature.KeyID)
 	info.APK.Signature.KeyID = cloneString(c.APK.Signature.KeyID)
 	override, ok := c.Overrides[format]
-	if !ok {
-		// no overrides
+	if !ok || override == nil {
+		// no overrides (an empty block, e.g. one holding only comments, decodes to nil)
 		return info, nil
 	}
 	if err = mergo.Merge(&info.Overridables, override, mergo.WithOverride); err != nil {
@@ -224,6 +224,9 @@ func (c *Config) expandEnvVars() {
 	c.Platform = os.Expand(c.Platform, c.envMappingFunc)
 	c.Arch = os.Expand(c.Arch, c.envMappingFunc)
 	for or := range c.Overrides {
+		if c.Overrides[or] == nil {
+			continue
+		}
 		c.Overrides[or].Conflicts = c.expandEnvVarsStringSlice(c.Overrides[or].Conflicts)
 		c.Overrides[or].Depends = c.expandEnvVarsStringSlice(c.Overrides[or].Depends)
 		c.Overrides[or].Replaces = c.expandEnvVarsStringSlice(c.Overrides[or].Replaces)
